@@ -354,7 +354,16 @@ func (ex *Exec) intrinsic(st *State, fr *Frame, name string, args []Value) Value
 		return ts.Eq(t, ts.Const(8, 1))
 	case "zzInt":
 		lo, hi := ex.term(args[1]), ex.term(args[2])
-		t := ex.drawInt(st, ex.argStr(st, args[0]), 64, true)
+		nm := ex.argStr(st, args[0])
+		if ex.concrete == nil && lo.Op == OConst && hi.Op == OConst && lo.SVal() >= 0 && hi.SVal() >= lo.SVal() && hi.K < (1<<61) {
+			// constant non-negative bounds: the variable's name carries them, and so does its range
+			t := ts.Var(64, fmt.Sprintf("%s#%d[%d..%d]", nm, len(st.draws), lo.K, hi.K))
+			ts.SetVarRange(t, lo.K, hi.K)
+			st.draws = append(st.draws, Draw{Name: nm, Kind: "int", T: t, W: 64, Signed: true})
+			ex.addPC(st, ts.BAnd(ts.RawUle(ts.Const(64, lo.K), t), ts.RawUle(t, ts.Const(64, hi.K))))
+			return t
+		}
+		t := ex.drawInt(st, nm, 64, true)
 		if ex.concrete == nil {
 			ex.addPC(st, ts.BAnd(ts.Sle(lo, t), ts.Sle(t, hi)))
 		}
